@@ -217,7 +217,10 @@ ManualOut(c) == c.enable_manual_pred_struct # 0
                          \/ U(c.mps_temporal_layer) \/ c.mps_temporal_layer > 31
                          \/ c.mps_ref0 < 0 \/ c.mps_ref0 = 0 \/ 1 - c.mps_ref0 < 0
 (* [D] says [1 - 32]; [H] calls the number "the minigop size" (2^levels): other counts in 1..32 are disputed *)
-ManualAmb(c) == c.enable_manual_pred_struct # 0 /\ c.manual_pred_struct_entry_num \in (1 .. 32) \ {1, 2, 4, 8, 16, 32}
+ManualAmb(c) == c.enable_manual_pred_struct # 0
+                /\ \/ c.manual_pred_struct_entry_num \in (1 .. 32) \ {1, 2, 4, 8, 16, 32}
+                   \* [D] gives [0 - 31] for the decode order; an order that is not below the entry number cannot index the mini-GOP
+                   \/ (~U(c.mps_decode_order) /\ c.mps_decode_order <= 31 /\ c.mps_decode_order >= c.manual_pred_struct_entry_num)
 (* [G] qindex offsets [-256,255] per layer; unused unless use_fixed_qindex_offsets *)
 QBad(a) == \E i \in 1 .. Len(a) : a[i] < -256 \/ a[i] > 255
 QOffOut(c) == c.use_fixed_qindex_offsets = 1 /\ (QBad(c.qindex_offsets) \/ QBad(c.chroma_qindex_offsets))
